@@ -5,6 +5,7 @@ import os
 import re
 import shutil
 import subprocess
+import threading
 
 from vlib import core, detgen, pkgrun
 from vlib.sexp import Q, dump
@@ -289,6 +290,10 @@ def make_packages(ctx):
 # running histories
 # ---------------------------------------------------------------------------------------------------
 
+INNER = 8                                              # legs of one history that run side by side
+SEM = threading.BoundedSemaphore(core.NCPU)            # shoot processes at a time, over all histories
+
+
 class Dir:
     """one copy of a package at some absolute location"""
 
@@ -319,8 +324,9 @@ class Dir:
             cmd = ["go", "generate", "-run", re.escape(self.ctx.shoot()), "."]
         e = core.goenv()
         e.update(env or {})
-        p = subprocess.run(cmd, cwd=cwd or self.cwd, env=e, stdout=subprocess.PIPE, stderr=subprocess.PIPE, text=True, errors="replace",
-                           timeout=600, preexec_fn=(lambda: os.umask(umask)) if umask is not None else None)
+        with SEM:
+            p = subprocess.run(cmd, cwd=cwd or self.cwd, env=e, stdout=subprocess.PIPE, stderr=subprocess.PIPE, text=True, errors="replace",
+                               timeout=600, preexec_fn=(lambda: os.umask(umask)) if umask is not None else None)
         self.log.append({"args": args, "rc": p.returncode, "stderr": p.stderr[-400:]})
         return p
 
@@ -381,122 +387,183 @@ def listed_files(stderr):
     return out
 
 
-def run_outputs(d, args):
+def run_outputs(d, args, written=None):
     p = d.shoot(args)
+    if written is not None:
+        written.extend(listed_files(p.stderr))
     return d.outputs() if p.returncode == 0 else {"<failed>": d.log[-1]["stderr"].encode()}
 
 
 def history(ctx, roots, job):
-    """all runs of one (package, mode); returns the observation dict"""
+    """all runs of one (package, mode); returns the observation dict.  After the fresh runs the legs are independent chains
+    (one per directory) and run side by side: with -getset the package is loaded again after every type, so one run over a
+    file with many types takes seconds and a sequential history would be the critical path of the whole check"""
+    from concurrent.futures import ThreadPoolExecutor
     pk, pke, mode, nexec, cid = job["pk"], job["edited"], job["mode"], job["nexec"], job["id"]
     args = mode_args(pk, mode)
     obs, notes = {}, []
     dirs = [Dir(ctx, roots[0], "%s_x%d" % (cid, i), pk) for i in range(nexec)]
-    fresh, msgs, ok = [], [], True
-    for d in dirs:
+
+    def fresh_one(d):
         d.setup()
         p = d.shoot(args)
-        ok = ok and p.returncode == 0
-        fresh.append(d.outputs())
-        msgs.append(tuple(listed_files(p.stderr)))
-    if not ok:
-        return {"failed": dirs[0].log[-1]}
-    obs["execs"] = all(f == fresh[0] for f in fresh)
-    obs["msgs"] = msgs
-    obs["nfiles"] = len(fresh[0])
-    free = []            # directories that hold exactly the fresh output over the unedited sources
-    # repeat (quick: in two of the directories; thorough: in every one)
-    rep = []
-    for d, f in list(zip(dirs, fresh))[:job["nrepeat"]]:
-        p = d.shoot(args)
-        rep.append(p.returncode == 0 and d.outputs() == f)
-    # and a third time in the first directory (an output that feeds back could oscillate with period two)
-    p3 = dirs[0].shoot(args)
-    obs["repeat"] = all(rep) and p3.returncode == 0 and dirs[0].outputs() == fresh[0]
-    used = {0, 1 % nexec, 2 % nexec}
-    if obs["repeat"]:
-        free.append(dirs[0])
-    # delete the outputs, run again
-    d = dirs[1 % nexec]
-    d.delete_outputs()
-    d.shoot(args)
-    obs["delete"] = d.outputs() == fresh[0]
-    if obs["delete"] and (1 % nexec) != 0:
-        free.append(d)
-    # edit the sources (the output grows), stale output left in place  vs  the edited sources generated in a clean directory
-    d = dirs[2 % nexec]
-    if (2 % nexec) == (1 % nexec):
-        d.shoot(args)
-    d.write(pke["files"])
-    d.setup()       # map: the `shoot new` output in the source / destination packages is part of the map run's INPUT
-    stale = run_outputs(d, mode_args(pke, mode))
-    fr = []
-    for i in range(job["nfresh_edit"]):
-        y = Dir(ctx, roots[0], "%s_y%d" % (cid, i), pke)
-        y.setup()
-        fr.append(run_outputs(y, mode_args(pke, mode)))
-    obs["stale"] = stale == fr[0] and all(f == fr[0] for f in fr)
+        return p.returncode == 0, d.outputs(), tuple(listed_files(p.stderr))
+
+    def fresh_dir(name, files_pk=None, run_args=None):
+        d = Dir(ctx, roots[0], "%s_%s" % (cid, name), files_pk or pk)
+        d.setup()
+        if run_args:
+            d.shoot(run_args)
+        return d
+
+    with ThreadPoolExecutor(max_workers=INNER) as ex:
+        f0 = list(ex.map(fresh_one, dirs))
+        if not all(x[0] for x in f0):
+            return {"failed": [d for d, x in zip(dirs, f0) if not x[0]][0].log[-1]}
+        fresh, msgs = [x[1] for x in f0], [x[2] for x in f0]
+        obs["execs"] = all(f == fresh[0] for f in fresh)
+        obs["msgs"] = msgs
+        obs["nfiles"] = len(fresh[0])
+        aio_name = detgen.aio_file(pk["gofile"], pk["cmd"])
+
+        # --- legs; each returns a dict of partial observations ---
+        def leg_repeat(d, i):
+            p = d.shoot(args)
+            return {"rep:%d" % i: p.returncode == 0 and d.outputs() == fresh[i]}
+
+        def leg_third(d):
+            # a third time in the first directory (an output that feeds back could oscillate with period two)
+            p = d.shoot(args)
+            return {"third": p.returncode == 0 and d.outputs() == fresh[0]}
+
+        def leg_delete(d):
+            d.delete_outputs()
+            d.shoot(args)
+            return {"delete": d.outputs() == fresh[0]}
+
+        def leg_grow(d):
+            # edit the sources (the output grows), stale output left in place
+            d.write(pke["files"])
+            d.setup()       # map: the `shoot new` output in the source / destination packages is part of the map run's INPUT
+            return {"grow-stale": run_outputs(d, mode_args(pke, mode))}
+
+        def leg_back(d):
+            # separate -> all-in-one -> separate again
+            pa = d.shoot(mode_args(pk, "aio"))
+            aio_after = d.outputs().get(aio_name)
+            d.shoot(args)
+            after = d.outputs()
+            return {"back": {k: v for k, v in after.items() if k != aio_name} == fresh[0], "aio-after": aio_after, "pa-rc": pa.returncode}
+
+        def leg_shrink(d, k):
+            label, pks = job["shrinks"][k]
+            if d is None or d.outputs() != fresh[0]:
+                d = fresh_dir("k%d" % k, run_args=args)
+            ws = []
+            d.write(pks["files"])
+            d.setup()
+            st = run_outputs(d, mode_args(pks, mode), ws)
+            return {"shrink-st:%d" % k: (st, ws)}
+
+        def single_clean_shrink(k):
+            label, pks = job["shrinks"][k]
+            wk = []
+            y = fresh_dir("w%d" % k, pks)
+            return {"shrink-fk:%d" % k: (run_outputs(y, mode_args(pks, mode), wk), wk)}
+
+        def single_clean_grow(i):
+            y = fresh_dir("y%d" % i, pke)
+            return {"grow-fresh:%d" % i: run_outputs(y, mode_args(pke, mode))}
+
+        def single_clean_aio():
+            z = fresh_dir("z")
+            pz = z.shoot(mode_args(pk, "aio"))
+            return {"z-rc": pz.returncode, "z-aio": z.outputs().get(aio_name)}
+
+        def single_location():
+            # a second absolute location of different depth
+            l2 = Dir(ctx, roots[1], "%s_l" % cid, pk)
+            l2.setup()
+            l2.shoot(args)
+            return {"location": l2.outputs() == fresh[0]}
+
+        # --- plan: one chain per directory ---
+        chains = {0: [leg_third], 1: [leg_delete], 2: [leg_grow]}
+        if mode == "sep":
+            chains[3] = [leg_back]
+        free_idx = [i for i in range(nexec) if i not in chains]
+        own = []
+        for k in range(len(job["shrinks"])):
+            f = (lambda kk: lambda d: leg_shrink(d, kk))(k)
+            if free_idx:
+                chains[free_idx.pop(0)] = [f]
+            elif len(chains[0]) == 1:
+                chains[0].append(f)      # after repeat + third the first directory still holds the fresh output
+            elif len(chains[1]) == 1:
+                chains[1].append(f)      # so does the second after delete + rerun
+            else:
+                own.append(f)
+
+        def run_chain(i):
+            out = {}
+            if i < job["nrepeat"]:
+                out.update(leg_repeat(dirs[i], i))
+            for leg in chains.get(i, []):
+                out.update(leg(dirs[i]))
+            return out
+        futs = [ex.submit(run_chain, i) for i in range(nexec) if i < job["nrepeat"] or i in chains]
+        futs += [ex.submit(f, None) for f in own]
+        futs += [ex.submit(single_clean_shrink, k) for k in range(len(job["shrinks"]))]
+        futs += [ex.submit(single_clean_grow, i) for i in range(job["nfresh_edit"])]
+        futs.append(ex.submit(single_location))
+        if mode == "sep":
+            futs.append(ex.submit(single_clean_aio))
+        if job.get("env"):
+            futs.append(ex.submit(lambda: {"envres": env_legs(ctx, roots, job, fresh[0], job["env"])}))
+        part = {}
+        for f in futs:
+            part.update(f.result())
+
+    obs["repeat"] = all(v for k, v in part.items() if k.startswith("rep:")) and part["third"]
+    obs["delete"] = part["delete"]
+    fr = [part["grow-fresh:%d" % i] for i in range(job["nfresh_edit"])]
+    obs["stale"] = part["grow-stale"] == fr[0] and all(f == fr[0] for f in fr)
     if "<failed>" in fr[0]:
         obs["edited-fails"] = True
-    # separate -> all-in-one -> separate again
     if mode == "sep":
-        d = dirs[3 % nexec]
-        if (3 % nexec) in (1 % nexec, 2 % nexec):
-            d = Dir(ctx, roots[0], "%s_b" % cid, pk)
-            d.setup()
-            d.shoot(args)
-        used.add(3 % nexec)
-        pa = d.shoot(mode_args(pk, "aio"))
-        aio_name = detgen.aio_file(pk["gofile"], pk["cmd"])
-        aio_after = d.outputs().get(aio_name)
-        d.shoot(args)
-        after = d.outputs()
-        obs["back"] = {k: v for k, v in after.items() if k != aio_name} == fresh[0]
-        z = Dir(ctx, roots[0], "%s_z" % cid, pk)
-        z.setup()
-        pz = z.shoot(mode_args(pk, "aio"))
-        if pa.returncode == 0 and pz.returncode == 0:
-            obs["back-aio"] = aio_after == z.outputs().get(aio_name)
+        obs["back"] = part["back"]
+        if part["pa-rc"] == 0 and part["z-rc"] == 0:
+            obs["back-aio"] = part["aio-after"] == part["z-aio"]
         else:
-            obs["back-aio"] = pa.returncode == pz.returncode
-    free = [dirs[i] for i in range(nexec) if i not in used] + free
+            obs["back-aio"] = part["pa-rc"] == part["z-rc"]
     # edits that SHRINK the output (a type / a field / a constant / a method removed), the previous output left in place,
-    # against the edited sources generated in a clean directory.  What the run WRITES is compared (all-in-one modes: the
-    # whole set of generated files; -type=list: the files of the listed types - the file of a removed type legitimately stays)
+    # against the edited sources generated in a clean directory
     obs["shrink"] = {}
     for k, (label, pks) in enumerate(job["shrinks"]):
-        if free:
-            d = free.pop(0)
-        else:
-            d = Dir(ctx, roots[0], "%s_k%d" % (cid, k), pk)
-            d.setup()
-            d.shoot(args)
-        y = Dir(ctx, roots[0], "%s_w%d" % (cid, k), pks)
-        y.setup()
-        fk = run_outputs(y, mode_args(pks, mode))
+        fk, wk = part["shrink-fk:%d" % k]
+        st, ws = part["shrink-st:%d" % k]
         if "<failed>" in fk:
             obs["shrink"][label] = None
             continue
-        d.write(pks["files"])
-        d.setup()
-        st = run_outputs(d, mode_args(pks, mode))
-        same = all(st.get(fn) == c for fn, c in fk.items()) and (mode == "sep" or set(st) == set(fk))
+        # the same files are reported as written, with the same content; and where something is generated in an all-in-one
+        # mode the directory holds the same generated files afterwards (-type=list: the file of a removed type legitimately
+        # stays; nothing generated - e.g. the only enum type left has no constants - the run writes and removes nothing, the
+        # earlier output legitimately stays)
+        same = ws == wk and all(st.get(fn) == c for fn, c in fk.items()) and (mode == "sep" or not fk or set(st) == set(fk))
         obs["shrink"][label] = same
+        if not fk:
+            notes.append("%s %s: nothing is generated from the shrunk sources; the earlier output stays in the directory" % (cid, label))
         if not same:
             notes.append("%s %s: %s" % (cid, label, "; ".join(
                 "%s stale-dir %s bytes, clean-dir %s bytes%s" % (fn, len(st[fn]) if fn in st else None, len(fk[fn]) if fn in fk else None,
                                                                " (clean is a prefix of what the stale directory holds)" if fn in st and fn in fk and st[fn] != fk[fn] and st[fn].startswith(fk[fn]) else "")
                 for fn in sorted(set(st) | set(fk)) if st.get(fn) != fk.get(fn))[:400]))
-    # a second absolute location of different depth
-    l2 = Dir(ctx, roots[1], "%s_l" % cid, pk)
-    l2.setup()
-    l2.shoot(args)
-    obs["location"] = l2.outputs() == fresh[0]
+    obs["location"] = part["location"]
     obs["cmd"] = "shoot " + " ".join(args)
     obs["fresh0"] = fresh[0]
     obs["notes"] = notes
-    if job.get("env"):
-        obs["envres"] = env_legs(ctx, roots, job, fresh[0], job["env"])
+    if "envres" in part:
+        obs["envres"] = part["envres"]
     return obs
 
 
@@ -521,12 +588,14 @@ def env_legs(ctx, roots, job, fresh0, alt):
 
 
 def run_special(ctx, root, sp, idx, nexec):
-    outs = []
-    for i in range(nexec):
+    from concurrent.futures import ThreadPoolExecutor
+
+    def one(i):
         d = Dir(ctx, root, "s%d_%d" % (idx, i), {"files": sp["files"], "cwd": ".", "cmd": sp["args"][0]})
         p = d.shoot(sp["args"])
-        outs.append((p.returncode, d.outputs()))
-    return outs
+        return (p.returncode, d.outputs())
+    with ThreadPoolExecutor(max_workers=INNER) as ex:
+        return list(ex.map(one, range(nexec)))
 
 
 # ---------------------------------------------------------------------------------------------------
@@ -578,11 +647,22 @@ def run(ctx, obl):
 
     def do(task):
         if task[0] == "job":
-            return history(ctx, roots, task[1])
+            t0 = time.time()
+            ob = history(ctx, roots, task[1])
+            ob["secs"] = round(time.time() - t0, 1)
+            ob["nruns"] = 0
+            return ob
         idx, sp = task[1]
         return run_special(ctx, roots[0], sp, idx, max(nexec, 8, sp.get("nexec", 0)))
     # the jobs with environment legs first (their first run fills an empty build cache)
-    tasks.sort(key=lambda t: 0 if t[0] == "job" and t[1].get("env") else 1)
+    # then the expensive ones (with -getset the package is loaded again after every type)
+    def cost(t):
+        if t[0] != "job":
+            return 0
+        j = t[1]
+        per = len(j["pk"]["all_types"] if j["mode"] != "sep" else j["pk"]["types"]) if j["pk"]["cmd"] == "new" and "-getset" in j["pk"]["flags"] else 1
+        return per * j["nexec"]
+    tasks.sort(key=lambda t: (0 if t[0] == "job" and t[1].get("env") else 1, -cost(t)))
     done = dict(zip([id(t[1]) for t in tasks], core.pmap(do, tasks)))
     results = [done[id(j)] for j in jobs]
     sres = [done[id(t)] for t in [x[1] for x in tasks if x[0] == "special"]]
@@ -733,7 +813,8 @@ def run(ctx, obl):
         if c.get("shrink") and model.get(c["id"]):
             res.hist("shrink-region", "%s/%s impl=%s" % (c["shrink"], model[c["id"]]["region"] or "WF", impl[c["id"]]["stale"]))
     res.extra["timing_s"] = {"runs": round(t_runs - t_start, 1), "model+compare": round(time.time() - t_runs, 1),
-                             "shoot_jobs": len(jobs)}
+                             "shoot_jobs": len(jobs),
+                             "slowest_jobs": sorted(((ob.get("secs", 0), j["id"], j["pk"]["cmd"], j["mode"], j["nexec"]) for j, ob in zip(jobs, results)), reverse=True)[:5]}
     res.rule = ("generated packages (new: struct trees with cross embeds, -getset/-json, embedded types declared before or after their embedders; map incl. chains of "
                 "nested embedded pointer structs; enum; rest) x modes (-type=list, -file=, -type=* when a go:generate line is present) x histories: fresh in N "
                 "directories, repeat (quick: in two of them, thorough: in each; a third time in the first), delete outputs + rerun, source edits with the previous output left in place vs the edited "
